@@ -535,6 +535,8 @@ def run_c16(tier, seed):
             json.dump(dict(kind='table', prop=prop, event=slim), open(os.path.join(rd, 'replay.json'), 'w'), indent=1)
             out.violation('TableTrace rejects a table: %s' % json.dumps(slim)[:500], rd, dict(kind='table'))
     c.rmtree(d)
+    sepst = sep_layer(prop, tier, seed, out) if not out.full() else {}
+    st['sep'] = sepst.get('Sep', {})
     rc = out.finish()
     sample = None
     for l in lines:
@@ -549,3 +551,64 @@ def run_c16(tier, seed):
 
 
 CHECKS['C16'] = run_c16
+
+
+# =============================================================================================
+# Sep.tla: index-key shortening (C16)
+# =============================================================================================
+def sep_layer(prop, tier, seed, out):
+    """SepMC: the transcribed separator functions keep the contract on every string of a small alphabet; SepTrace: the
+    real functions keep it on every pair of strings (length <= 3 over {00,01,02,fe,ff} + random longer ones)."""
+    import itertools, random
+    quick = tier == 'quick'
+    st = dict(states=0, transitions=0, executions=0)
+    cfgp = os.path.join(c.SPEC, 'SepMC_run.cfg')
+    txt = 'SPECIFICATION Spec\nCONSTANTS\n  Alphabet = {%s}\n  MaxLen = 3\n  Seqs = {1, 5}\n' % ('0, 1, 254, 255' if quick else '0, 1, 2, 254, 255')
+    if not os.path.exists(cfgp) or open(cfgp).read() != txt: open(cfgp, 'w').write(txt)
+    r = c.tlc('SepMC', 'SepMC_run.cfg', workers=4, timeout=1800, heap='6g', deadlock=False)
+    if r.error:
+        if 'Assumption' in r.out and 'is false' in r.out:
+            rd = c.replay_dir(prop, 'mc'); open(os.path.join(rd, 'tlc.out'), 'w').write(r.out[-20000:])
+            json.dump(dict(kind='mc', module='SepMC'), open(os.path.join(rd, 'replay.json'), 'w'))
+            out.violation('Sep.tla: the transcribed separator functions break their contract', rd, dict(kind='mc'))
+            return {'Sep': st}
+        raise Broken('SepMC failed: %s' % r.error[:300])
+    st['mc'] = dict(strings=sum((4 if quick else 5) ** n for n in range(4)), assumptions=5)
+    lib = c.build_lib(); exe = c.build_driver('sep', lib)
+    rng = random.Random(seed)
+    alpha = [0, 1, 2, 254, 255]
+    strs = [bytes(t) for n in range(0, 4) for t in itertools.product(alpha, repeat=n)]
+    hx = lambda b: b.hex() if b else '-'
+    d = c.scratch('sep'); vp = os.path.join(d, 'vec.txt'); n = 0
+    with open(vp, 'w') as f:
+        pairs = [(a, b) for a in strs for b in strs]
+        if quick: pairs = rng.sample(pairs, 6000)
+        for a, b in pairs: f.write('S %s %s\n' % (hx(a), hx(b))); n += 1
+        for a in strs: f.write('U %s\n' % hx(a)); n += 1
+        for _ in range(3000 if quick else 20000):
+            a, b = rng.choice(strs), rng.choice(strs)
+            f.write('IS %s %d %s %d\n' % (hx(a), rng.choice([1, 5, 9]), hx(b), rng.choice([1, 5, 9]))); n += 1
+        for a in strs: f.write('IU %s %d\n' % (hx(a), rng.choice([1, 5]))); n += 1
+        for _ in range(1500 if quick else 10000):      # longer keys with long common prefixes
+            pre = bytes(rng.choice(alpha + [97, 98]) for _ in range(rng.randint(0, 12)))
+            a = pre + bytes(rng.choice(alpha + [97]) for _ in range(rng.randint(0, 4))); b = pre + bytes(rng.choice(alpha + [98]) for _ in range(rng.randint(0, 4)))
+            f.write('S %s %s\n' % (hx(a), hx(b))); f.write('IS %s %d %s %d\n' % (hx(a), 7, hx(b), 3)); n += 2
+    tp = os.path.join(d, 'sep.ndjson')
+    p = c.sh([exe, vp, tp], timeout=300)
+    if p.returncode != 0:
+        p2 = c.sh([exe, vp, tp], timeout=300)
+        if p2.returncode == 0: raise Broken('sep driver failure not reproducible')
+        rd = c.replay_dir(prop, 'sep'); shutil.copy(vp, os.path.join(rd, 'vectors.txt'))
+        json.dump(dict(kind='sep', why='driver exit %s' % p.returncode, stderr=(p.stderr or '')[-500:]), open(os.path.join(rd, 'replay.json'), 'w'))
+        out.violation('the real separator functions abort on generated vectors (exit %s)' % p.returncode, rd, dict(kind='sep_crash'))
+        c.rmtree(d); return {'Sep': st}
+    r = c.trace_validate('SepTrace', 'SepTrace.cfg', tp, timeout=1500, heap='4g')
+    st['states'] = r['res'].distinct; st['transitions'] = r['res'].generated; st['executions'] = 1; st['vectors'] = n
+    if not r['accepted']:
+        lines = open(tp).read().split('\n')
+        bad = lines[r['prefix']] if r['prefix'] is not None and r['prefix'] < len(lines) else None
+        rd = c.replay_dir(prop, 'sep'); shutil.copy(tp, os.path.join(rd, 'trace.ndjson'))
+        json.dump(dict(kind='sep', line=r['prefix'], event=bad), open(os.path.join(rd, 'replay.json'), 'w'), indent=1)
+        out.violation('index-key shortening breaks its contract (start <= separator < limit / key <= successor): %s' % (bad or '')[:300], rd, dict(kind='sep'))
+    c.rmtree(d)
+    return {'Sep': st}
